@@ -171,7 +171,7 @@ func init() {
 	}
 	props["C06"] = &PropSpec{ID: "C06",
 		Uses: []Use{
-			{Rule: "SIB-6", Filter: and(role("shadow"), funcHas("kdirer"))},
+			{Rule: "SIB-6", Filter: and(role("shadow", "reuse"), funcHas("kdirer"))},
 			{Rule: "EFF-6", Floors: map[string]int{"exists": 1}},
 			{Rule: "EFF-2", Floors: map[string]int{"site": 1}},
 			{Rule: "EFF-5", Filter: funcHas("Mkdirer")},
@@ -187,7 +187,7 @@ func init() {
 	}
 	props["C08"] = &PropSpec{ID: "C08",
 		Uses: []Use{
-			{Rule: "SIB-6", Filter: and(role("shadow"), funcHas("erifier"))},
+			{Rule: "SIB-6", Filter: and(role("shadow", "reuse"), funcHas("erifier"))},
 			{Rule: "TAB-7", Filter: and(role("wire"), constructHas("strict"))},
 			{Rule: "CONC-6", Filter: and(role("learned"), funcHas("erif"))},
 			{Rule: "EFF-1", Filter: and(role("entry-readonly", "cli-readonly"), funcHas("Verify", "actionVerify"))},
@@ -248,6 +248,7 @@ func init() {
 			{Rule: "NIL-1", Filter: role("handover-return")},
 			{Rule: "SPLIT-1"},
 			{Rule: "PARSE-1"},
+			{Rule: "ERR-1", Filter: funcHas("rootGenerator", "nodeGenerator", "gtree.split", "markdown.")},
 		},
 		Decides:    "in all four line loops (simple, iterator, pipeline worker, tinywasm) every scanned line is classified; a parse error ends the call with that error; only whitespace-only lines map to 'skip'; a root opens a new stack and is recorded; an item before the first root hits a live nil-stack test; every other item is attached or the attach function reports failure which every caller turns into the format error of that line; every recorded root is handed over; the format error carries and prints the row.",
 		NotDecided: "the 'iff': which lines the parser considers malformed (indent not a multiple of the unit, tab/space mixing, empty text) is decided on run-time values; that the error text quotes the row byte-for-byte; the massive-mode splitter's grouping of lines into blocks beyond the symbol-table agreement.",
@@ -338,7 +339,7 @@ func init() {
 			{Rule: "ERR-3", Filter: cfgIs("W")},
 			{Rule: "PAIR-3", Filter: cfgIs("W")},
 			{Rule: "SIB-5", Filter: or(cfgIs("W"), funcHas("rootGeneratorSimple).generateIter"))},
-			{Rule: "EFF-4", Filter: and(cfgIs("W"), role("validate-call"))},
+			{Rule: "EFF-4", Filter: or(and(cfgIs("W"), role("validate-call")), role("validate"))},
 			{Rule: "NIL-1", Filter: cfgIs("W")},
 			{Rule: "PAIR-6", Filter: cfgIs("W")},
 		},
